@@ -90,7 +90,18 @@ impl binrw::BinRead for Mso {
             let whole = [name.as_slice(), msg.as_slice()].concat();
             let name = codepages::to_lossy_string(strip_trailing_nul(&name));
             let msg = codepages::to_lossy_string(strip_trailing_nul(&whole));
-            (name.len() as u8, msg.to_string())
+
+            // TextStart must index a character boundary of the decoded message (the writer slices
+            // the message there) and must still fit the u8 it is stored in.
+            let mut textstart = name.len().min(msg.len());
+            while !msg.is_char_boundary(textstart) {
+                textstart -= 1;
+            }
+            let textstart = u8::try_from(textstart).map_err(|_| binrw::Error::AssertFail {
+                pos: reader.stream_position().unwrap_or_default(),
+                message: "decoded name is longer than TextStart can express".into(),
+            })?;
+            (textstart, msg.to_string())
         } else {
             let msg: Vec<u8> = binrw::helpers::until_eof(reader, endian, ())?;
             (
